@@ -400,6 +400,113 @@ def run_asm(case: dict):
     return ok(**info)
 
 
+# ------------------------------------------------------------------ lane C: connections that overlap in time
+
+
+@st.composite
+def overlap_case_st(draw):
+    n = draw(st.integers(2, 3))
+    chain = [c for c in draw(st.lists(comp_st(), max_size=3)) if c["kind"] != "allow-once"]
+    # a component whose verdict depends on who asks, behind a slow one
+    disc = draw(st.sampled_from([
+        {"kind": "real", "name": "acl", "allow": None, "deny": [IPS[0]], "default_allow": True},
+        {"kind": "real", "name": "acl", "allow": [IPS[1]], "deny": None, "default_allow": False},
+        {"kind": "real", "name": "certauth", "prefix": "/", "require_cert": True, "allowed": ["ec-a"]},
+        {"kind": "real", "name": "certauth", "prefix": "/private/", "require_cert": True, "allowed": None},
+    ]))
+    chain.insert(draw(st.integers(0, len(chain))), {**disc, "gate": draw(st.booleans())})
+    if not any(c.get("gate") for c in chain):
+        chain.insert(0, {"kind": "allow", "gate": True})
+    peers = draw(st.permutations(IPS))
+    conns = [{"peer": peers[i], "cert": draw(st.sampled_from(CERTS)), "path": draw(st.sampled_from(PATHS)),
+              "titan": draw(st.integers(0, 3)) == 0} for i in range(n)]
+    return {"chain": chain, "conns": conns, "schedule": draw(st.lists(st.integers(0, 59), max_size=14))}
+
+
+def run_overlap(case: dict):
+    """Several connections share one chain object (as in the server) and are in flight at the same time; each must be
+    judged on its own address / certificate / URL."""
+    setup_logging()
+    import asyncio
+
+    from nauyaca.server.protocol import GeminiServerProtocol
+
+    def url_of(i, c):
+        return (f"titan://example.org{c['path']};size=4;token=t{i}" if c["titan"] else f"gemini://example.org{c['path']}?c={i}")
+
+    async def scenario(loop):
+        sim = srvsim.Sim(loop)
+        handler = srvsim.build_handler(sim, {"kind": "value", "status": 20, "meta": "text/gemini", "body": "CONTENT"})
+        up = srvsim.build_upload(sim, {"kind": "value", "status": 20, "meta": "text/gemini", "body": "STORED"})
+        real = _real_components(case)
+        specs = [{**c, "name": c.get("_key")} if c["kind"] == "real" else c for c in case["chain"]]
+        mw = srvsim.build_middleware(sim, specs, real)
+        trs, fed = [], []
+        for i, c in enumerate(case["conns"]):
+            tr = FakeTransport(loop, peername=(c["peer"], 50000 + i), peer_der=certs.get(c["cert"]).der if c["cert"] else None)
+            tr.attach(GeminiServerProtocol(handler, mw, up))
+            trs.append(tr)
+            fed.append(False)
+
+        def feed(i):
+            fed[i] = True
+            trs[i].feed(url_of(i, case["conns"][i]).encode() + b"\r\n" + (b"DATA" if case["conns"][i]["titan"] else b""))
+
+        for k in case["schedule"]:
+            acts = [("feed", i) for i in range(len(trs)) if not fed[i]] + [("settle", 0)]
+            if sim.pending_gates():
+                acts.append(("gate", 0))
+            a, i = acts[k % len(acts)]
+            if a == "feed":
+                feed(i)
+            elif a == "gate":
+                sim.release_one()
+            await vloop.settle(3)
+        for i in range(len(trs)):
+            if not fed[i]:
+                feed(i)
+                await vloop.settle(2)
+        # release one consultation at a time so that resumed requests interleave
+        while sim.pending_gates():
+            sim.release_one()
+            await vloop.settle(3)
+        sim.release_all()
+        await vloop.settle(8)
+        await asyncio.sleep(100)
+        return sim, trs
+
+    sim, trs = vloop.run(scenario)
+    info = {"conns": len(trs), "refs": []}
+    overlap = False
+    enter_t = {}
+    for i, c in enumerate(case["conns"]):
+        url = url_of(i, c)
+        ref, resp = reference({"chain": case["chain"], "peer": c["peer"], "cert": c["cert"], "path": c["path"]})
+        info["refs"].append(ref)
+        mark = f"token=t{i}" if c["titan"] else f"?c={i}"
+        ran = [e for e in sim.log if e[0] in ("handler", "upload") and str(e[2]).endswith(mark)]
+        S = trs[i].written()
+        if ref == "admit":
+            if len(ran) != 1 or not S.startswith(b"20 "):
+                return viol("admitted-request-not-served-once", f"connection {i} ({c}): {len(ran)} invocations, response {S[:40]!r}; "
+                            f"other connections {[x for j, x in enumerate(case['conns']) if j != i]}", **info)
+        else:
+            if ran:
+                return viol("handler-ran-for-refused-request", f"connection {i} ({c['peer']}, cert {c['cert']}, {c['path']}): reference {ref} {resp!r} "
+                            f"but the handler ran; other connections in flight: {[x for j, x in enumerate(case['conns']) if j != i]}", **info)
+            if S[:1] == b"2":
+                return viol("refused-request-got-2x", f"connection {i}: {S[:40]!r}", **info)
+            if ref == "deny" and resp is not None and S != resp.encode():
+                return viol("not-first-rejection", f"connection {i}: expected {resp!r} got {S[:60]!r}", **info)
+    for e in sim.log:
+        if e[0] == "mw-enter":
+            marks = [(f"token=t{i}" if c["titan"] else f"?c={i}", c["peer"], fp_of(c["cert"])) for i, c in enumerate(case["conns"])]
+            if not any(str(e[3]).endswith(m) and (e[4], e[5]) == (ip, fp) for m, ip, fp in marks):
+                return viol("chain-consulted-with-mixed-arguments", f"{e[3:]} is no connection's (url, address, fingerprint)", **info)
+    info["mixed"] = len(set(info["refs"])) > 1
+    return ok(**info)
+
+
 def _nontrivial(case, v):
     return any(c["kind"] != "allow" or c.get("gate") for c in case["chain"])
 
@@ -434,4 +541,10 @@ LANES = [
          bucket=lambda c, v: v.clause + ":" + str(v.info.get("backend")),
          rule="real start_server assembly (captured factory) on both backends over in-memory TLS with real client "
               "certificates; a recording component appended to the chain checks address / URL / fingerprint"),
+    Lane(name="overlap", run_case=run_overlap, strategy=overlap_case_st, budget={"quick": 6000, "thorough": 80000},
+         shards={"quick": 16, "thorough": 32}, nontrivial=lambda c, v: bool(v.info.get("mixed")),
+         labels=lambda c, v: ["conns:%d" % len(c["conns"]), "mixed-verdicts" if v.info.get("mixed") else "same-verdicts"]
+         + sorted({"ref:" + r for r in v.info.get("refs", [])}),
+         rule="2-3 connections with different address / certificate / path in flight at once through ONE shared chain "
+              "object with slow components; every connection is judged by the reference on its own arguments"),
 ]
